@@ -1,4 +1,5 @@
 import YardlModel.Expr
+import YardlProofs.ExprW
 import YardlGenerated.Tables
 
 /-!
@@ -80,5 +81,25 @@ theorem parentheses_correct (tgt : Target) (op child : BinOp) (h : ¬ (tgt = .cp
 example : binopType T .add .uint8 .int8 = some .int32 := by decide
 example : binopType T .pow .int32 .int32 = some .float64 := by decide
 example : binopType T .mul .float32 .int16 = some .float32 := by decide
+
+/-! ### one meaning in every target: arithmetic in a fixed-width type -/
+
+/-- C++ (`int64_t`, `uint64_t`, …) and NumPy scalars compute in a fixed-width type: every operand and every operation's
+    result is wrapped into the type's range. Whenever the operands, the intermediate results and the result of a computed
+    field lie in the range of the type, that computation yields the mathematical value of the expression (`Expr.eval`,
+    exact integers, division truncating) — for every expression, every range and every record -/
+theorem fixed_width_evaluation_is_exact (r : Rng) (ρ : Nat → Int) (e : Expr) (h : e.inRange r ρ = true) :
+    e.evalW r ρ = e.eval ρ :=
+  Expr.evalW_exact r ρ e h
+
+/-- the hypothesis is met by `(x + y - z) / y` on `uint64` at the top of the range, and is needed: out of range, the
+    fixed-width value differs from the mathematical one -/
+example :
+    let r : Rng := ⟨0, 18446744073709551615⟩
+    let e : Expr := .bin .div (.bin .sub (.bin .add (.var 0) (.var 1)) (.var 2)) (.var 1)
+    e.inRange r (fun i => [18446744073709551557, 7, 3].getD i 0) = true ∧
+    (Expr.bin .add (.var 0) (.var 0)).evalW r (fun _ => 18446744073709551615) ≠ (Expr.bin .add (.var 0) (.var 0)).eval (fun _ => 18446744073709551615) := by
+  decide
+
 
 end Yardl.C19
